@@ -87,3 +87,36 @@ Theorem C06_response_independent_of_arrival_order_partial : forall r0 rs rs' d, 
   exists d', merge_results (r0 :: rs') = Ok d' /\ forall fuel c ss, shaped fuel c ss d = shaped fuel c ss d'.
 Proof. exact response_order_irrelevant. Qed.
 Print Assumptions C06_response_independent_of_arrival_order_partial.
+
+(* The same for ANY plan (Proofs/MergeRoots.v): results of root steps (maps merged by mergeMaps; a failed root step's nil)
+   and of lookups in one list.  [indep2]: two lookups are independent as above; a root result and a lookup are independent
+   when the lookup's insertion point leaves the root result's tree before it ends; two root results always are (a success
+   of one order already forces them to be compatible).  For any two arrival orders that begin with a root step's result
+   and whose inverted pairs are independent: the merge fails or succeeds alike and the response is the same. *)
+From V Require Import Proofs.MergeRoots.
+Theorem C06_response_independent_of_arrival_order : forall r0 rs r0' rs' d, is_root r0 -> is_root r0' -> Forall ok_res (r0 :: rs) ->
+  Permutation (r0 :: rs) (r0' :: rs') ->
+  (forall x y, before x y (r0 :: rs) -> before y x (r0' :: rs') -> indep2 x y) ->
+  merge_results (r0 :: rs) = Ok d ->
+  exists d', merge_results (r0' :: rs') = Ok d' /\ forall fuel c ss, shaped fuel c ss d = shaped fuel c ss d'.
+Proof. exact response_any_plan. Qed.
+Print Assumptions C06_response_independent_of_arrival_order.
+(* mergeMaps itself: two root results into one tree in either order; both succeed or both fail *)
+Theorem C06_root_results_commute : forall n d s1 s2 d1 d12, wf (RMap d) -> wf (RMap s1) -> wf (RMap s2) ->
+  merge_maps n d s1 = Ok d1 -> merge_maps n d1 s2 = Ok d12 ->
+  exists d2 d21, merge_maps n d s2 = Ok d2 /\ merge_maps n d2 s1 = Ok d21 /\ mrel d12 d21.
+Proof. exact rr_commute. Qed.
+Print Assumptions C06_root_results_commute.
+
+(* The link between the two halves: which pairs can two arrival orders have in opposite order at all?  For any two schedules
+   of the same plan (every interleaving of main, collector and step goroutines) that collect the same results, a pair they
+   order differently is causally unrelated: neither step is an ancestor of the other in the spawning relation.  So the
+   independence the merge theorems ask for is needed only of causally unrelated results. *)
+From V Require Import Proofs.CausalOrders.
+Theorem C06_inverted_pairs_are_causally_unrelated : forall fixed max o roots ls ls' st st',
+  run fixed max o ls (init roots) = Some st -> run fixed max o ls' (init roots) = Some st' ->
+  NoDup (map fst (results st)) -> Permutation (results st) (results st') ->
+  forall x y, bef x y (results st) -> bef y x (results st') ->
+  ~ anc (results st) (fst x) (fst y) /\ ~ anc (results st) (fst y) (fst x).
+Proof. exact any_two_schedules. Qed.
+Print Assumptions C06_inverted_pairs_are_causally_unrelated.
